@@ -176,3 +176,23 @@ def test_d33_constant_samples_have_zero_deviation():
     assert s == 0 and m == 0.1
     q = sv.RealQuantizer(target_fwhm=32, num_bits=8)
     assert np.all(np.asarray(q.quantize(np.full(3, 0.1))) == 0)      # target mean, not -/+ target deviation
+
+
+def test_d34_numpy_fixed_width_integer_arguments():
+    i32 = np.int32
+    bs = sv.get_block_size(num_antennas=i32(1), tchans_per_block=i32(16), num_bits=i32(8), num_pols=i32(2), num_branches=i32(1024),
+                           num_chans=i32(64), fftlength=i32(1048576), int_factor=i32(1))
+    assert int(bs) == 16 * 1048576 * 64 * 4
+    u8 = np.uint8
+    ant = sv.Antenna(sample_rate=1024.0, num_pols=1, seed=1)
+    be = sv.RawVoltageBackend(ant, digitizer=sv.RealQuantizer(), filterbank=sv.PolyphaseFilterbank(num_taps=2, num_branches=8),
+                              requantizer=sv.ComplexQuantizer(), start_chan=u8(0), num_chans=u8(2), block_size=u8(96),
+                              blocks_per_file=u8(100), num_subblocks=u8(1))
+    be._make_header = lambda f, h: None
+    be.collect_data_block = lambda **kw: np.zeros((0,))
+    be.record(output_file_stem=os.path.join(engine.workdir(), 'd34'), num_blocks=u8(6), length_mode='num_blocks', header_dict={},
+              load_template=False, verbose=False)
+    assert be.samples_per_block == 24 and int(be.total_obs_num_samples) == 6 * 24 * 8
+    g = sv.get_total_obs_num_samples(num_blocks=u8(6), length_mode='num_blocks', num_antennas=u8(1), sample_rate=1024.0,
+                                     block_size=u8(96), num_bits=u8(8), num_pols=u8(1), num_branches=u8(8), num_chans=u8(2))
+    assert int(g) == 6 * 24 * 8
